@@ -558,3 +558,44 @@ class WsCloseAfterFailure(Contract):
         return s.returned and len(after) == 0
 
     ensures = {"no-request-frame-after-a-failed-write": lambda s: WsCloseAfterFailure.ok(s)}
+
+
+@contract
+class WsWriteExpeditedPieces(Contract):
+    """an expedited-size download (declared size 2..4) written in two pieces: every piece is taken, nothing is sent
+    until the declared size is there, then exactly one expedited frame carries header ++ piece1 ++ piece2 ++ zero
+    padding and the stream is done"""
+    target = "canopen.sdo.client:WritableStream.write"
+    id = "WsWriteExpeditedPieces"
+    props = ("C01",)
+    cases = {"%d+%d" % (a, n - a): (n, a) for n in (2, 3, 4) for a in range(1, n)}
+    exits = ("return", "raise:SdoCommunicationError", "raise:SdoAbortedError")
+
+    def setup(self, w, case):
+        n, a = case
+        ws = mk_ws(w, True)
+        w.assume(And(compare("==", w.pre["size"], n), Not(w.pre["done"])))
+        b1, b2 = w.bytes("b1", a), w.bytes("b2", n - a)
+        w.pre.update(b1=b1, b2=b2, n=n, a=a)
+        return Call(("func", "env.drivers", "write_two_pieces"), [ws, b1, b2])
+
+    @staticmethod
+    def ok(s):
+        p = s.pre
+        reqs = requests(s)
+        if len(reqs) != 1:
+            return False
+        n, a = p["n"], p["a"]
+        items = [S.byte(p["hdr"], i) for i in range(4)] + [S.byte(p["b1"], i) for i in range(a)] \
+            + [S.byte(p["b2"], i) for i in range(n - a)] + [0] * (4 - n)
+        fr = frame(reqs[0], items)
+        pr = propagated(s)
+        if pr is not None:
+            return And(fr, pr)
+        R = last_outcome(s)[1]
+        if not bool(compare("==", binop("&", S.byte(R, 0), 0xE0), 0x60)):
+            return And(fr, s.raised(COMM))
+        return And(fr, s.returned, isinstance(s.ret, tuple) and len(s.ret) == 2 and S.eq(s.ret[0], a) and S.eq(s.ret[1], n - a),
+                   truth_val(s.w.get(p["ws"], "_done")), S.eq(s.w.get(p["ws"], "pos"), n))
+
+    ensures = {"one-expedited-frame-with-both-pieces": lambda s: WsWriteExpeditedPieces.ok(s)}
